@@ -336,3 +336,178 @@ class DictPrimitiveDetach(_c03.DictStore):
       if child.sym_parent is not None or str(child.sym_path) != '':
         bad.append(f'{how}: removed node still has parent={child.sym_parent is not None}, path={str(child.sym_path)!r}')
     return dict(outcome='reproduced' if bad else 'not-reproduced', detail='; '.join(bad) or 'removed nodes are detached')
+
+
+# ---------------------------------------------------------------------------
+# Reordering mutators and the re-addressing pass.
+#   RESYNC   List.sort / List.reverse: on every returning path the C-level
+#            reordering is followed by the re-addressing pass `_sync_children`
+#            (no shortcut that skips it).
+#   ADDRESS  List._sync_children, second loop, for a list of any length: an
+#            arbitrary symbolic element whose path key differs from its index is
+#            given the path  path(list) + index ; an element already addressed by
+#            its index is left alone; leaves are ignored.  Hence after the pass
+#            every symbolic element's reported key is the index it is stored at.
+
+from pyvc import loops as _loops   # noqa: E402  pylint: disable=wrong-import-position
+
+ELEM_IS_NODE = z3.Function('c01_elem_is_node', z3.IntSort(), z3.BoolSort())
+ELEM_KEY = z3.Function('c01_elem_key', z3.IntSort(), z3.IntSort())
+
+
+class Elem:
+  """Marker: an abstract list element (symbolic node or leaf)."""
+
+
+def _inv_true(i):
+  return True
+
+
+class _Reorder(Contract):
+  prop = 'C01'
+  raises = {base.WritePermissionError: ()}
+  pure = tuple(PURE)
+
+  def inputs(self, b):
+    s = SObj(pg.List, {'_value_spec': None}, name='self')
+    self._sealed = b.bool('treated_as_sealed')
+    return dict(self=s), {}
+
+  def setup_policy(self, policy):
+    me = self
+    policy.handlers[id(base.treats_as_sealed)] = lambda interp, a, k, f: SBool(me._sealed.z)
+    policy.contracts[f'{SL}:List.sym_values'] = lambda interp, frame, a, k: SAny('values')
+    policy.handlers[id(list)] = lambda interp, a, k, f: SAny('snapshot')
+
+    def c_reorder(name):
+      def h(interp, args, kwargs, frame):
+        interp.path.event('payload-write', f'list.{name}', None)
+        return None
+      return h
+    policy.handlers[('cmethod', list, 'sort')] = c_reorder('sort')
+    policy.handlers[('cmethod', list, 'reverse')] = c_reorder('reverse')
+    policy.contracts[f'{SL}:List._sync_children'] = lambda interp, frame, a, k: interp.path.event('sync', '_sync_children', None)
+    policy.contracts[f'{SL}:List._notify_reordering'] = lambda interp, frame, a, k: None
+
+  def trace_reordering_is_followed_by_readdressing(self, events, outcome, interp, env):
+    if outcome[0] != 'return':
+      return not [e for e in events if e.kind == 'payload-write']
+    w = [i for i, e in enumerate(events) if e.kind == 'payload-write']
+    s_ = [i for i, e in enumerate(events) if e.kind == 'sync']
+    return len(w) == 1 and len(s_) >= 1 and s_[-1] > w[-1]
+
+  def replay(self, obligation, m):
+    class _L(pg.Object):
+      n: int
+    bad = []
+    for how, op in (('reverse()', lambda l: l.reverse()), ('sort(key=n)', lambda l: l.sort(key=lambda x: x.n)),
+                    ('sort(key=-n)', lambda l: l.sort(key=lambda x: -x.n))):
+      for vals in ([8, 16, 8], [1, 2, 3], [2, 1, 2, 1]):
+        l = pg.List([_L(n=v) for v in vals])
+        op(l)
+        wrong = [i for i, x in enumerate(l) if x.sym_path.key != i or x.sym_parent is not l]
+        if wrong:
+          bad.append(f'pg.List of L(n) for n in {vals}: after {how} the elements at {wrong} report keys '
+                     f'{[l[i].sym_path.key for i in wrong]}')
+    return dict(outcome='reproduced' if bad else 'not-reproduced', detail='; '.join(bad[:3]) or 'all elements addressed by their index')
+
+  def small_models(self):
+    from pyvc.contracts import Model
+    yield Model({}, {})
+
+
+@register
+class ListSortResync(_Reorder):
+  target = f'{SL}:List.sort'
+  name = 'List.sort/resync'
+
+  def inputs(self, b):
+    args, g = super().inputs(b)
+    args.update(key=b.choice('key_kind', [None, SAny('key')]), reverse=b.bool('reverse'))
+    return args, g
+
+
+@register
+class ListReverseResync(_Reorder):
+  target = f'{SL}:List.reverse'
+  name = 'List.reverse/resync'
+
+
+@register
+class ListSyncChildrenAddress(Contract):
+  prop = 'C01'
+  target = f'{SL}:List._sync_children'
+  name = 'List._sync_children/address'
+  inline = (f'{SB}:Symbolic.sym_path',)
+
+  def inputs(self, b):
+    self._items = absobj.ref_seq(b, 'items', Elem, self._elem_lazy)
+    self._path = SObj(pg.KeyPath, {}, name='list_path')
+    s = SObj(pg.List, {'_value_spec': None, '_sym_path': self._path}, name='self')
+    return dict(self=s), {}
+
+  @staticmethod
+  def _elem_lazy(obj, name):
+    return NotImplemented
+
+  def setup_policy(self, policy):
+    me = self
+    import builtins
+
+    def isinstance_h(interp, args, kwargs, frame):
+      v, t = interp.resolve(args[0]), args[1]
+      if isinstance(v, SObj) and v.cls is Elem and t is base.TopologyAware:
+        return SBool(ELEM_IS_NODE(v.ghost['id']))
+      return axioms._b_isinstance(interp, args, kwargs, frame)
+    policy.handlers[id(builtins.isinstance)] = isinstance_h
+
+    def sym_items(interp, frame, args, kwargs):
+      it = me._items
+      return I.SymIter(lambda ip: it.len, lambda ip, i: (SInt(i), it.wrap(z3.Select(it.arr, i))))
+    policy.contracts[f'{SL}:List.sym_items'] = sym_items
+
+    def getattr_h(interp, obj, name, frame):
+      if isinstance(obj, SObj) and obj.cls is Elem:
+        if name == 'sym_path':
+          return SObj(pg.KeyPath, {'key': SInt(ELEM_KEY(obj.ghost['id']))}, name='elem_path')
+        if name == 'sym_setpath':
+          def setpath(ip, a, k, o=obj):
+            ip.path.event('setpath', 'sym_setpath', (o, ip.resolve(a[0])))
+            return None
+          return I.NativeFn(setpath)
+      return NotImplemented
+    policy.handlers[('getattr', SObj)] = getattr_h
+    policy.handlers[('new', pg.KeyPath)] = lambda interp, a, k, f: SObj(
+        pg.KeyPath, {'key': a[0], 'parent_path': a[1] if len(a) > 1 else None}, name='new_path')
+    policy.handlers[('identical',)] = absobj.identical_handler
+    # missing-value markers are never list elements after the first pass; the
+    # abstract elements here are nodes or ordinary leaves
+    policy.handlers[('binop', type(pg.MISSING_VALUE), SObj)] = None
+    policy.handlers.pop(('binop', type(pg.MISSING_VALUE), SObj))
+
+    def body_check(interp, frame, events):
+      idx = interp.to_z3(frame.locals['idx'])
+      item = interp.resolve(frame.locals['item'])
+      iid = absobj.ref_id(item)
+      sets = [e for e in events if e.kind == 'setpath']
+      if sets:
+        if len(sets) != 1 or sets[0].data[0] is not item:
+          return False
+        newp = sets[0].data[1]
+        if not (isinstance(newp, SObj) and newp.cls is pg.KeyPath):
+          return False
+        key_ok = interp.to_z3(interp.resolve(newp.fields['key'])) == idx
+        parent_ok = interp.resolve(newp.fields.get('parent_path')) is me._path
+        return z3.And(ELEM_IS_NODE(iid), ELEM_KEY(iid) != idx, key_ok, z3.BoolVal(bool(parent_ok)))
+      return z3.Or(z3.Not(ELEM_IS_NODE(iid)), ELEM_KEY(iid) == idx)
+    _loops.install(policy, 'List._sync_children', 1, _inv_true,
+                   havoc={'idx': lambda b, n: SAny(n), 'item': lambda b, n: SAny(n)},
+                   name='readdress-loop', body_check=body_check)
+    # the first two loops only collect / remove missing-value placeholders
+    _loops.install(policy, 'List._sync_children', 0, _inv_true,
+                   havoc={'i': lambda b, n: SAny(n), 'item': lambda b, n: SAny(n),
+                          'keys_to_remove': lambda b, n: []},
+                   name='collect-loop')
+
+  def trace_readdressing_loop_is_reached(self, events, outcome, interp, env):
+    return outcome[0] == 'return' and len([e for e in events if e.kind == 'loop' and e.what.endswith('readdress-loop')]) == 1
